@@ -197,12 +197,59 @@ def _replace_calls(fn):
             and any(k.arg in ("struct", "data", "hfs", "mfs", "trans", "slices") for k in c.keywords)]
 
 
+_TRANS_READERS = {}
+
+
+def trans_readers(prog):
+    """names of tensor-layer functions whose return value depends on a read of `<tensor>.trans` (directly or through another such
+    function): a call of one of them accounts for the pending permutation just like an explicit read"""
+    key = id(prog)
+    if key in _TRANS_READERS:
+        return _TRANS_READERS[key]
+    readers = {"consume_transpose"}
+    fs = functions(prog)
+    changed = True
+    rounds = 0
+    while changed and rounds < 4:
+        changed = False
+        rounds += 1
+        for f in fs:
+            if f.name in readers:
+                continue
+            b = A.local_bindings(f.node)
+            tainted = set()
+
+            def dep(node):
+                for n in ast.walk(node):
+                    if isinstance(n, ast.Attribute) and n.attr == "trans":
+                        return True
+                    if isinstance(n, ast.Call) and ((A.call_name(n) or "").split(".")[-1] in readers or A.callee_attr(n) in readers):
+                        return True
+                    if isinstance(n, ast.Name) and isinstance(n.ctx, ast.Load) and n.id in tainted:
+                        return True
+                return False
+            ch2 = True
+            while ch2:
+                ch2 = False
+                for nm, defs in b.items():
+                    if nm not in tainted and any(v is not None and dep(v) for _, v, _ in defs):
+                        tainted.add(nm)
+                        ch2 = True
+            rets = [r for r in A.returns_of(f.node) if r.value is not None]
+            if rets and all(dep(r.value) for r in rets):
+                readers.add(f.name)
+                changed = True
+    _TRANS_READERS[key] = readers
+    return readers
+
+
 def run_I2(chk, rule="I2"):
     """where the pending permutation is reset (trans=None / identity) struct and hfs are in native order *after*
     applying `trans`: they data- or control-depend on a read of X.trans (or come from a tensor whose permutation
     was consumed), and hfs is given explicitly."""
     prog = chk.prog
     chk.rule(rule, "results that reset the lazy permutation carry struct/hfs permuted through `trans`", floor=14)
+    readers = trans_readers(prog)
     for f in functions(prog):
         calls = []
         for c in _replace_calls(f.node):
@@ -223,9 +270,7 @@ def run_I2(chk, rule="I2"):
             for n in ast.walk(node):
                 if isinstance(n, ast.Attribute) and n.attr == "trans":
                     return True
-                if isinstance(n, ast.Call) and A.call_name(n) in ("_unpack_trans_test_axes_pair",):
-                    return True
-                if isinstance(n, ast.Call) and A.callee_attr(n) == "consume_transpose":
+                if isinstance(n, ast.Call) and ((A.call_name(n) or "").split(".")[-1] in readers or A.callee_attr(n) in readers):
                     return True
                 if isinstance(n, ast.Name) and isinstance(n.ctx, ast.Load) and n.id in tainted:
                     return True
@@ -340,14 +385,28 @@ def _segments(node, inl):
 
 
 
-def _native_provenance(fn):
-    """native leg sequence name -> meta leg sequence name it was unpacked from"""
+def _native_provenance(fn, prog=None, module=None, depth=2):
+    """native leg sequence name -> meta leg sequence name it was unpacked from (through private helpers of the module as well)"""
     prov = {}
     for n in A.walk_local(fn, include_self=False):
         if not (isinstance(n, ast.Assign) and isinstance(n.value, ast.Call)):
             continue
         cn = A.call_name(n.value)
         tg = n.targets[0]
+        if prog is not None and depth > 0 and isinstance(n.value.func, ast.Name) and cn not in ("_unpack_axes", "_unpack_trans_test_axes_pair") \
+                and isinstance(tg, (ast.Tuple, ast.List)):
+            g = prog.resolve(module, cn) if module is not None else None
+            if hasattr(g, "node") and hasattr(g, "params"):
+                gp = _native_provenance(g.node, prog, g.module, depth - 1)
+                rets = [r for r in A.returns_of(g.node) if r.value is not None and isinstance(r.value, ast.Tuple)]
+                if len(rets) == 1 and len(rets[0].value.elts) == len(tg.elts):
+                    for t, e in zip(tg.elts, rets[0].value.elts):
+                        src = gp.get(A.text(e))
+                        if isinstance(t, ast.Name) and src in g.params:
+                            i = g.params.index(src)
+                            if i < len(n.value.args):
+                                prov[t.id] = A.text(n.value.args[i])
+            continue
         if cn == "_unpack_axes" and isinstance(tg, (ast.Tuple, ast.List)):
             metas = n.value.args[1:]
             for t, m in zip(tg.elts, metas):
@@ -458,7 +517,7 @@ def run_L3(chk, rule="L3"):
                 # each meta segment runs over the meta-leg sequence from which the native sequence of the matching
                 # signature segment was unpacked (provenance through _unpack_axes / _unpack_trans_test_axes_pair)
                 if ok3:
-                    prov = _native_provenance(f.node)
+                    prov = _native_provenance(f.node, prog, f.module)
                     for m_, s_ in zip(ms, ss):
                         if m_[0] != "mfs":
                             continue
